@@ -89,6 +89,41 @@ def h_fibdemux(cfg):
         cover('unknown-flow')
     if not cfg['fib_flows']:
         cover('empty-fib')
+    if cfg.get('second'):
+        # (a) the table is changed in place after the first packet: the next packet of the flow follows the table as it is now;
+        # (b) a second demux built the same way shares nothing with the first: an end device registered on the first one
+        #     afterwards is unknown to the second
+        for r_ in [r for _, r in recs]:
+            del r_.log[:]
+        f2 = cfg['fib_flows'][0] if cfg['fib_flows'] else 0
+        if cfg['fib_flows'] and k >= 2 and f2 not in ends:
+            old = dm.fib[f2]
+            newport = 1 - old if isinstance(old, int) and old in (0, 1) else 0
+            dm.fib[f2] = newport
+            p2 = mk_packet(Packet, 0, 1, 2, flow_id=f2)
+            try:
+                dm.put(p2)
+            except Exception as ex:  # noqa
+                fail('no-raise', 'second packet: %s: %s' % (type(ex).__name__, ex))
+                return
+            check('c18.fibdemux-follows-the-table-as-it-is', any(p is p2 for p, _ in outs[newport].log) and
+                  sum(len(r.log) for _, r in recs) == 1, [name for name, r in recs if r.log])
+            cover('table-changed-in-place')
+        twin_outs = [Rec(env, 't%d' % i) for i in range(k)]
+        twin_default = Rec(env, 'tdefault')
+        twin = FIBDemux(outs=twin_outs, fib={}, default_out=twin_default)
+        late_end = Rec(env, 'late-end')
+        dm2 = FIBDemux(outs=[Rec(env, 'x')], fib={}, default_out=None)
+        dm2.ends[9] = late_end
+        p3 = mk_packet(Packet, 0, 1, 3, flow_id=9)
+        try:
+            twin.put(p3)
+        except Exception as ex:  # noqa
+            fail('no-raise', 'twin: %s: %s' % (type(ex).__name__, ex))
+            return
+        check('c18.instances-independent', len(late_end.log) == 0 and any(p is p3 for p, _ in twin_default.log),
+              'an end device registered on one demux received a packet put into another')
+        cover('two-instances')
     cover('nontrivial')
     obs('hit', where)
 
@@ -472,6 +507,8 @@ def jobs(tier, seed):
             for d in (True, False):
                 js.append({'harness': 'fibdemux', 'cfg': {'nouts': 2, 'default': d, 'ends': ends,
                                                           'fib_flows': fib_flows, 'nflows': 4}})
+    for fib_flows in ([0], [0, 1]):
+        js.append({'harness': 'fibdemux', 'cfg': {'nouts': 2, 'default': True, 'ends': [], 'fib_flows': fib_flows, 'nflows': 2, 'second': True}})
     js.append({'harness': 'switch', 'cfg': {'kind': 'simple', 'nports': 2, 'n': 2 if tier == 'quick' else 3}, 'weight': 20})
     for server in ('SP', 'WFQ', 'DRR', 'VirtualClock'):
         cfg = {'kind': 'fair', 'server': server, 'nports': 2, 'n': 2 if tier == 'quick' else 3, 'nflows': 3,
